@@ -211,6 +211,20 @@ struct VecSlot : IVec {
       }
       case kVecReserve: {
         size_t n = size_t(op.a[2]);
+        if (sizeof(size_t) == 8 && (op.a[2] % 41) == 40) {
+          // an item count that does not fit the vector's 32-bit size field (and whose byte size may wrap): refused by every
+          // reserve / resize path before anything is allocated
+          static const uint64_t huge[] = {0x100000000ull, 0x100000005ull, 0x2000000000000001ull, 0xFFFFFFFFFFFFFFFFull, 0x8000000000000000ull};
+          size_t hn = size_t(huge[size_t(op.a[1]) % 5]);
+          size_t size_before = v.size(), cap_before = v.capacity();
+          Error he;
+          switch (op.a[3] % 5) { case 0: he = v.reserve_fit(arena, hn); break; case 1: he = v.reserve_grow(arena, hn); break; case 2: he = v.resize_grow(arena, hn); break; case 3: he = v.resize_fit(arena, hn); break; default: he = v.reserve_additional(arena, hn); break; }
+          SIM_CHECK(he != Error::kOk, "c18:vector-reserve", "ArenaVector<%s>: reserving / resizing to %zu items reported success (size %zu -> %zu, capacity %zu -> %zu)", tname, hn, size_before, v.size(), cap_before, v.capacity());
+          SIM_CHECK(v.size() == size_before && v.capacity() == cap_before, "c18:vector-reserve", "ArenaVector<%s>: a refused reserve / resize changed the vector", tname);
+          sim::count("c18.probe.vector_item_count_beyond_32_bits");
+          check("after a refused reserve");
+          break;
+        }
         Error e;
         switch (op.a[3] % 3) { case 0: e = v.reserve_fit(arena, n); break; case 1: e = v.reserve_grow(arena, n); break; default: e = v.reserve_additional(arena, n); n += m.size(); break; }
         if (e == Error::kOk) SIM_CHECK(v.capacity() >= n, "c18:vector-reserve", "ArenaVector<%s>::reserve(%zu) succeeded but capacity is %zu", tname, n, v.capacity());
